@@ -146,13 +146,53 @@ def gen(tier, seed, info):
         if rnd.random() < 0.3:
             evs += ["MS 1 %d %d %d" % (b, pl, pc), "MS 2 %d %d %d" % ((b,) + pos()), "MS 3 %d %d %d" % ((b,) + pos())]
         victim = rnd.randint(1, depth)
-        if rnd.random() < 0.6:
+        r = rnd.random()
+        if rnd.random() < 0.3:
+            # a window of the chain (the source, one above it, one inside it) is moved during the gesture: the
+            # source's events are relative to where it is when they are sent
+            at = rnd.randint(2, len(evs) - 1)
+            evs.insert(at, "MV %d %d %d 0" % (rnd.randint(1, depth), rnd.randint(0, 2), rnd.randint(0, 3)))
+        if r < 0.25:
+            # a window of the chain is hidden during the gesture (and perhaps shown again): nothing goes to a
+            # source that is hidden or below a hidden window
+            at = rnd.randint(2, len(evs) - 1)
+            evs.insert(at, "H %d" % victim)
+            if rnd.random() < 0.4 and at + 2 < len(evs):
+                evs.insert(rnd.randint(at + 2, len(evs) - 1), "S %d" % victim)
+        elif r < 0.7:
             at = rnd.randint(2, len(evs) - 1)      # between two events, after the drag began
             evs.insert(at, "X %d" % victim)
         else:
             hdr.append("MU %d 1 %d %d" % (rnd.randint(0, depth), rnd.randint(1, 2), victim))
         yield " ".join(hdr + ops + evs)
     info["nested_drag_cases"] = ndrag
+    # a stealing popup (first child, STEAL_INPUT) whose key handler closes / destroys the focused pane (or another
+    # sibling, or a pane's child): the closed window is not offered the key any more
+    nsteal = 800 if tier == "quick" else 30000
+    for k in range(nsteal):
+        nl, nc = rnd.randint(4, 6), rnd.randint(6, 9)
+        par = 0
+        ops = []
+        nid = 1
+        if rnd.random() < 0.4:
+            ops.append("N 1 0 0 0 %d %d 0" % (nl, nc)); par = 1; nid = 2
+        panes = []
+        for _ in range(rnd.randint(1, 3)):
+            ops.append("N %d %d %d %d 2 3 0" % (nid, par, rnd.randint(0, nl - 2), rnd.randint(0, nc - 3)))
+            panes.append(nid); nid += 1
+        inner = None
+        if rnd.random() < 0.4:
+            ops.append("N %d %d 0 0 1 2 0" % (nid, panes[0])); inner = nid; nid += 1
+        popup = nid
+        ops.append("N %d %d %d %d 1 2 8" % (popup, par, rnd.randint(0, nl - 1), rnd.randint(0, nc - 2))); nid += 1
+        foc = inner if (inner is not None and rnd.random() < 0.5) else rnd.choice(panes)
+        ops.append("TF %d" % foc)
+        victim = rnd.choice(panes + ([inner] if inner is not None else []))
+        hdr = ["W G %d %d A" % (nl, nc), "MU %d 0 %d %d" % (popup, rnd.randint(1, 2), victim)]
+        if rnd.random() < 0.3:
+            hdr.append("CL %d 1" % rnd.choice(panes + [0]))
+        yield " ".join(hdr + ops + ["K", "K"])
+    info["stealing_popup_cases"] = nsteal
 
 
 def classify(case, obs):
